@@ -107,7 +107,7 @@ func (e *evidence) addReport(r *Run, rep *sx.Report, cfg *sx.Config) {
 		"decisions": rep.Decisions, "decision_kinds": rep.DecisionKinds, "solver_queries": rep.Queries, "unsat": rep.NUnsat, "sat": rep.NSat, "unknown": rep.NUnknown,
 		"assertions_evaluated": rep.Asserts, "assertions_decided_by_solver": rep.AssertQueries, "solver_s": round1(rep.SolverS), "wall_s": round1(rep.WallS),
 		"instructions_interpreted": rep.Steps, "max_path_condition_conjuncts": rep.MaxPC, "max_symbolic_variables": rep.MaxVars,
-		"float_dependent_branches": rep.FloatBranches, "aborted": rep.Aborted})
+		"float_dependent_branches": rep.FloatBranches, "assertion_batches_cross_checked_by_cvc5": rep.CrossChecked, "cross_check_unknown": rep.CrossUnknown, "aborted": rep.Aborted})
 }
 
 func round1(f float64) float64 { return float64(int(f*10+0.5)) / 10 }
